@@ -90,6 +90,9 @@ fn oracle(c: &CkksCase) -> Verdict {
         let err = e.le.exp2();
         // the scaled message plus error must stay inside Q/2 (2^6 margin), and the encoder must accept the scale
         if !(l2(m + err) + SAFETY_BITS < lq(e.level) - 1.0) { return Ok(false); }
+        // documented precondition of decode: floor(log2 scale) below the bit count of the level's modulus (a rescale of a scale
+        // within a fraction of a bit of Q can land exactly on it; decode then refuses by contract, whatever the values are)
+        if !(e.scale > 0.0) || (e.scale.log2() as usize) >= w.levels[e.level].qbits { return Ok(false); }
         let dec = catch(|| w.decryptor.decrypt_new(&e.ct)).map_err(|p| format!("{what}: decrypt panicked: {p}"))?;
         if dec.scale() != e.scale { return Err(format!("{what}: decrypted plaintext scale {} differs from ciphertext scale {}", dec.scale(), e.scale)); }
         let out = catch(|| enc.decode_new(&dec)).map_err(|p| format!("{what}: decode panicked: {p}"))?;
@@ -197,6 +200,13 @@ fn oracle(c: &CkksCase) -> Verdict {
                 if !ok { return fail_key(key, format!("{what}: operands with scales 2^{:.3} and 2^{:.3} were added instead of refused", pool[a].scale.log2(), pool[b].scale.log2())); }
                 refusals += 1; None
             }
+            CK::BadScaleMul if op.flag => {
+                // squaring (all sizes, the size-2 fast path included) an operand whose squared scale does not fit
+                let a = match pick((0..pool.len()).filter(|&j| 2 * pool[j].size - 1 <= 16 && (pool[j].scale * pool[j].scale).log2() >= qbits(pool[j].level) + 0.5).collect(), op.a) { Some(a) => a, None => continue };
+                let ok = refuses(|| ev.square_new(&pool[a].ct)) && refuses(|| { let mut x = pool[a].ct.clone(); ev.square_inplace(&mut x); x });
+                if !ok { return fail_key(key, format!("{what}: squared scale 2^{:.1} does not fit the {}-bit modulus but the square (operand size {}) was computed", 2.0 * pool[a].scale.log2(), qbits(pool[a].level), pool[a].size)); }
+                refusals += 1; None
+            }
             CK::BadScaleMul => {
                 let a = match pick(all.clone(), op.a) { Some(a) => a, None => continue };
                 let b = match pick((0..pool.len()).filter(|&j| pool[j].level == pool[a].level && pool[j].size + pool[a].size - 1 <= 16 && (pool[j].scale * pool[a].scale).log2() >= qbits(pool[a].level) + 0.5).collect(), op.b) { Some(b) => b, None => continue };
@@ -226,6 +236,6 @@ pub fn def() -> PropertyDef {
         level: "exploration",
         rule: "random CKKS programs of 0..10 (thorough 0..24) operations {negate, add, sub, multiply, square, add/sub/multiply_plain, relinearize, rescale_to_next, mod_switch_to_next} plus injected ill-typed steps {add/sub/multiply across levels, add/sub with scales differing by more than the library tolerance, product scale not fitting the modulus} over 2..4 fresh encryptions of complex vectors (signs, imaginary parts, magnitudes 2^-12..2^6) on chains of 2..6 primes of 20..60 bits, initial scales 2^10..2^60. Each well-typed result's recorded scale must be bit-equal to the IEEE product/quotient; its decoding must be within the worst-case error bound when the scaled message plus error bound (2^6 margin) fits Q_level/2; ill-typed steps must panic. non-trivial: asserted with a multiplication and (rescaled or negative/imaginary inputs or mixed prime sizes), or a refusal checked.",
         assumptions: vec!["error model DESIGN.md §4 in the coefficient domain with |sigma(e)| <= N |e|_inf; tolerance shadow::ckks_tolerance", "shadow complex arithmetic in f64 (its own rounding is added to the tolerance per operation)"],
-        subs: vec![Sub::prop("ckks_programs", 30_000, 600_000, 0.2, ckks_case, oracle)],
+        subs: vec![Sub::prop("ckks_programs", 120_000, 600_000, 0.2, ckks_case, oracle)],
     }
 }
